@@ -86,8 +86,10 @@ def gen_f32_bits(rng):
 
 
 def gen_param(rng):
-    v = rng.choice([float(rng.randint(1, 2000)), rng.uniform(0, 1000), 0.0, -0.012345678901234567, 1e-7, rng.gauss(0, 1)])
-    return str(int(v)) if float(v).is_integer() else repr(float(v))
+    v = rng.choice([float(rng.randint(1, 2000)), rng.uniform(0, 1000), 0.0, -0.012345678901234567, 1e-7, rng.gauss(0, 1),
+                    # values whose repr is in exponent notation, exponents ending in 0 included; large and tiny magnitudes
+                    2.5e-10, 4.75e-20, -3e-100, rng.uniform(1, 10) * 10.0 ** rng.choice([-30, -20, -11, -10, -9, -5]), 1.5e300])
+    return str(int(v)) if float(v).is_integer() and abs(v) < 1e15 else repr(float(v))
 
 
 def gen_full_pose(rng):
